@@ -50,6 +50,9 @@ pub fn bset() -> Vec<V> {
         V::Map(vec![(V::s("a"), V::Int(1)), (V::s("b"), V::Int(2))]),
         V::Map(vec![(V::s("b"), V::Int(2)), (V::s("a"), V::Int(1))]),
         V::Map(vec![(V::s("a"), V::Int(2))]),
+        V::Map(vec![(V::UInt(1), V::s("x"))]),
+        V::Map(vec![(V::UInt(2), V::s("y")), (V::UInt(1), V::s("x"))]),
+        V::Map(vec![(V::Bool(true), V::List(vec![V::UInt(1)]))]),
     ]);
     v.extend([V::dur_ns(0), V::dur_ns(1), V::dur_ns(-1), V::dur_ns(1_000_000_000), V::dur_ns(999_999_999)]);
     v.extend([V::Ts(1685232000, 0, 0), V::Ts(1685232000, 1, 0), V::Ts(1685232000, 0, 3600), V::Ts(1685231999, 999_999_999, -3600), V::Ts(-62135596800, 0, 0)]);
@@ -248,7 +251,7 @@ pub fn check_alias(c: &Alias) -> Outcome {
 pub struct ProgPair {
     pub a: V,
     pub b: V,
-    /// 0 variables, 1 literals
+    /// 0 variables, 1 literals, 2 a as variable and b as literal, 3 a as literal and b as variable
     pub form: u8,
 }
 
@@ -257,12 +260,13 @@ const RELS: [&str; 6] = ["==", "!=", "<", "<=", ">", ">="];
 pub fn check_program_pair(c: &ProgPair) -> Outcome {
     let (Some(ca), Some(cb)) = (to_cel(&c.a), to_cel(&c.b)) else { return Outcome::Skip("not-representable") };
     let (la, lb) = (lit::lit(&c.a), lit::lit(&c.b));
-    let literal = c.form == 1;
-    if literal && (la.is_none() || lb.is_none()) {
+    let literal = c.form >= 1;
+    if (matches!(c.form, 1 | 3) && la.is_none()) || (matches!(c.form, 1 | 2) && lb.is_none()) {
         return Outcome::Skip("no-literal-form");
     }
-    let vars = if literal { vec![] } else { vec![("x".to_string(), c.a.clone()), ("y".to_string(), c.b.clone())] };
-    let (sa, sb) = if literal { (la.unwrap(), lb.unwrap()) } else { ("x".to_string(), "y".to_string()) };
+    let vars = if c.form == 1 { vec![] } else { vec![("x".to_string(), c.a.clone()), ("y".to_string(), c.b.clone())] };
+    let sa = if matches!(c.form, 1 | 3) { la.unwrap() } else { "x".to_string() };
+    let sb = if matches!(c.form, 1 | 2) { lb.unwrap() } else { "y".to_string() };
     let direct_eq = ca == cb;
     let direct_cmp = ca.partial_cmp(&cb);
     let mut results: Vec<Option<bool>> = vec![];
@@ -274,7 +278,7 @@ pub fn check_program_pair(c: &ProgPair) -> Outcome {
             o => return fail(format!("`{src}` with {vars:?}: {}", o.show())),
         }
     }
-    let ctx = format!("a={:?} b={:?} ({})", c.a, c.b, if literal { "literals" } else { "variables" });
+    let ctx = format!("a={:?} b={:?} ({})", c.a, c.b, ["variables", "literals", "variable and literal", "literal and variable"][c.form as usize % 4]);
     // program level agrees with trait level
     if results[0] != Some(direct_eq) || results[1] != Some(!direct_eq) {
         return fail(format!("{ctx}: `a == b` gives {:?} and `a != b` gives {:?}; Value::eq gives {direct_eq}", results[0], results[1]));
@@ -408,7 +412,7 @@ pub fn run(r: &mut Runner) {
     }
     {
         let b = bs.clone();
-        r.sweep_fn("program-pairs", n * n * 2, move |i| ProgPair { a: b[(i / 2 / n) as usize].clone(), b: b[((i / 2) % n) as usize].clone(), form: (i % 2) as u8 }, check_program_pair);
+        r.sweep_fn("program-pairs", n * n * 4, move |i| ProgPair { a: b[(i / 4 / n) as usize].clone(), b: b[((i / 4) % n) as usize].clone(), form: (i % 4) as u8 }, check_program_pair);
     }
     {
         let ordered: Vec<V> = bs.iter().filter(|v| is_num(v) && !matches!(v, V::Float(f) if f.0.is_nan())).cloned().collect();
@@ -485,7 +489,7 @@ pub fn run(r: &mut Runner) {
         k / 4,
         |u: &mut Chooser| {
             let p = gen_related_pair(u, o);
-            ProgPair { a: p.a, b: p.b, form: u.below(2) as u8 }
+            ProgPair { a: p.a, b: p.b, form: u.below(4) as u8 }
         },
         check_program_pair,
     );
